@@ -470,6 +470,51 @@ where
     }
 }
 
+/// Expressions dominated by stack operations under sequences, alternatives, optionals,
+/// repetitions and predicates: nested snapshots, pops across snapshot lines, failing alternatives
+/// after pops, re-pushes. Literals are kept tiny so that derivations often match.
+pub fn stack_heavy_expr() -> BoxedStrategy<GE> {
+    let lit = || prop_oneof![Just("a"), Just("b"), Just(""), Just("ab")].prop_map(|s| GE::Str(s.to_string()));
+    let leaf = prop_oneof![
+        5 => lit().prop_map(|l| GE::Push(Box::new(l))),
+        4 => Just(GE::Builtin("POP")),
+        2 => Just(GE::Builtin("PEEK")),
+        2 => Just(GE::Builtin("DROP")),
+        1 => Just(GE::Builtin("PEEK_ALL")),
+        1 => Just(GE::Builtin("POP_ALL")),
+        1 => (proptest::option::of(-2i32..=2), proptest::option::of(-2i32..=2)).prop_map(|(a, b)| GE::PeekSlice(a, b)),
+        3 => lit(),
+        1 => any::<u8>().prop_map(GE::Ref),
+    ];
+    leaf.prop_recursive(5, 24, 3, |inner| {
+        prop_oneof![
+            6 => (inner.clone(), inner.clone()).prop_map(|(a, b)| GE::Seq(Box::new(a), Box::new(b))),
+            4 => (inner.clone(), inner.clone()).prop_map(|(a, b)| GE::Choice(Box::new(a), Box::new(b))),
+            3 => inner.clone().prop_map(|a| GE::Opt(Box::new(a))),
+            1 => inner.clone().prop_map(|a| GE::Rep(Box::new(a))),
+            1 => inner.clone().prop_map(|a| GE::Pos(Box::new(a))),
+            1 => inner.clone().prop_map(|a| GE::Neg(Box::new(a))),
+            1 => inner.clone().prop_map(|a| GE::Push(Box::new(a))),
+            1 => (inner, 1u32..=2).prop_map(|(a, n)| GE::RepMax(Box::new(a), n)),
+        ]
+    })
+    .boxed()
+}
+
+/// A grammar of 1-3 stack-heavy rules (no implicit whitespace, any modifier).
+pub fn stack_heavy_grammar() -> BoxedStrategy<Gram> {
+    proptest::collection::vec((ty_strategy(), stack_heavy_expr()), 1..=3)
+        .prop_map(|rules| {
+            let mut g = Gram { rules: vec![] };
+            for (i, (ty, expr)) in rules.into_iter().enumerate() {
+                g.rules.push(GRule { name: format!("r{i}"), ty, expr });
+            }
+            repair(&mut g);
+            g
+        })
+        .boxed()
+}
+
 fn ty_strategy() -> impl Strategy<Value = Ty> {
     prop_oneof![
         5 => Just(Ty::Normal),
